@@ -129,6 +129,8 @@ def run(res, tier, seed, shard, nshards):
     rng = random.Random((seed << 8) ^ shard ^ 0xC01)
     if not HAVE_WEBSOCKETS:
         res.notes["second_oracle"] = "websockets package not importable: second oracle skipped"
+    if shard == 0:
+        H.contracts_workload(res, ["ABNF.format", "ABNF.mask"])
 
     if tier == "quick":
         lengths = list(range(0, 401)) + list(range(65400, 65701)) + [rng.randrange(0, 1 << 20) for _ in range(100)] + [1 << 16, (1 << 16) - 1, 1 << 20]
